@@ -628,7 +628,7 @@ def mk_big(rnd, tier):
           'ps_cr on=svc state=2 out=%s' % hx('svc'), 'ps_dumprestore')
     # nesting around the JSON decoder's limit (128 containers; the record adds 3 around a check result's command /
     # performance_data, 2 around executions): deeper values are the recorded finding state-depth-limit
-    for k in ([1, 60, 122, 123, 124, 125, 126, 127, 128, 129, 200, 1000] if tier == 'thorough' else [123, 124, 125, rnd.choice([126, 127, 200])]):
+    for k in ([1, 60, 122, 123, 124, 125, 126, 127, 128, 129, 200, 300] if tier == 'thorough' else [123, 124, 125, rnd.choice([126, 127, 200])]):
         S('state-depth', 'ps_snew svc=1', 'ps_cr on=host state=1 out=6f perf=A(W%d(D1))' % k, 'ps_cr on=svc state=2 out=%s' % hx('sv'), 'ps_dumprestore')
     for k in ([124, 125, 126] if tier == 'thorough' else [rnd.choice([125, 126])]):
         S('state-depth', 'ps_snew svc=0', 'ps_cr on=host state=1 out=6f cmd=W%d(S%s)' % (k, hx('c')), 'ps_dumprestore')
